@@ -1,5 +1,369 @@
 package c20
 
-import "verif/mc/ev"
+// Harness B: the REAL Poller goroutine (Run -> tick -> backfill -> apply) inside a testing/synctest bubble, fed by a
+// scripted sequencer that answers like the feeder (no-change / delta / full by identifier + known tx count), on a
+// real Blockchain whose head is stored / reverted between ticks AND in the middle of a tick (inside the poller's
+// data-source call, i.e. after it sampled the height and realigned, before it applies). Readers everywhere: after
+// every step, and in the mid-tick hook, a snapshot is taken for every head height seen so far; every view ever
+// handed out is re-hashed after every later step and read through against the live canonical chain.
 
-func pollerHarness(r *ev.Run, canons []*canon) {}
+import (
+	"context"
+	"fmt"
+	"runtime"
+	"strings"
+	"sync/atomic"
+	"testing"
+	"testing/synctest"
+	"time"
+
+	"verif/mc/chain"
+	"verif/mc/ev"
+
+	"github.com/NethermindEth/juno/core"
+	"github.com/NethermindEth/juno/core/felt"
+	"github.com/NethermindEth/juno/core/pending"
+	"github.com/NethermindEth/juno/db/memory"
+	"github.com/NethermindEth/juno/feed"
+	"github.com/NethermindEth/juno/starknet"
+	"github.com/NethermindEth/juno/sync/preconfirmed"
+	"github.com/NethermindEth/juno/utils/log"
+)
+
+// environment alphabet of harness B
+var bAlphabet = []string{"tick", "tick+store", "tick+revert", "addtx", "newround", "nextblock", "jump2", "store", "revert"}
+
+type round struct{ id, cnt int }
+
+type seqModel struct {
+	latest uint64
+	blocks map[uint64]round
+}
+
+type benv struct {
+	r       *ev.Run
+	chk     *checker
+	mainCh  []*chain.Entry
+	height  int // canonical head
+	bc      *canon
+	nb      int
+	seq     seqModel
+	storage *preconfirmed.ChainStorage
+	seen    map[uint64]bool
+	held    []root
+	mid     string // head move to perform inside the next data-source call
+	trace   []string
+	classes map[felt.Felt]core.ClassDefinition
+	stats   *bStats
+}
+
+type bStats struct {
+	scenarios, steps, ticks, views, nonEmpty, rehashes, midMoves, dsCalls, storeFail atomic.Int64
+}
+
+func (e *benv) ctx() func() any {
+	return func() any { return map[string]any{"harness": "B", "scenario": strings.Join(e.trace, " ; ")} }
+}
+
+// --- scripted sequencer (preconfirmed.DataSource)
+
+func (e *benv) answer(n uint64, identifier string, txCount uint64) starknet.PreConfirmedUpdate {
+	cur, ok := e.seq.blocks[n]
+	if !ok {
+		cur = round{0, 0}
+	}
+	switch {
+	case identifier == idString(n, cur.id) && int(txCount) == cur.cnt:
+		u, _ := decode(noChangeJSON)
+		return u
+	case identifier == idString(n, cur.id) && int(txCount) < cur.cnt:
+		u, _ := decode(deltaJSON(n, cur.id, int(txCount), cur.cnt))
+		return u
+	default:
+		u, _ := decode(fullJSON(n, cur.id, cur.cnt))
+		return u
+	}
+}
+
+func (e *benv) hook() {
+	e.stats.dsCalls.Add(1)
+	if e.mid == "" {
+		return
+	}
+	m := e.mid
+	e.mid = ""
+	e.stats.midMoves.Add(1)
+	e.headMove(m)
+	e.observe("mid-tick " + m)
+}
+
+func (e *benv) PreConfirmedBlockLatest(_ context.Context, identifier string, txCount uint64) (starknet.PreConfirmedUpdate, uint64, error) {
+	e.hook()
+	return e.answer(e.seq.latest, identifier, txCount), e.seq.latest, nil
+}
+
+func (e *benv) PreConfirmedBlockByNumber(_ context.Context, n uint64, identifier string, txCount uint64) (starknet.PreConfirmedUpdate, error) {
+	e.hook()
+	return e.answer(n, identifier, txCount), nil
+}
+
+func (e *benv) Class(_ context.Context, h *felt.Felt) (core.ClassDefinition, error) {
+	if c, ok := e.classes[*h]; ok {
+		return c, nil
+	}
+	return nil, fmt.Errorf("class %s unknown to the scripted sequencer", h)
+}
+
+// --- head moves on the real blockchain
+
+func (e *benv) headMove(m string) {
+	bc := e.bc.bc[e.nb]
+	switch m {
+	case "store":
+		if e.height+1 >= len(e.mainCh) {
+			return
+		}
+		var parent *chain.Entry
+		if e.height >= 0 {
+			parent = e.mainCh[e.height]
+		}
+		if err := chain.StoreSync(bc, e.mainCh[e.height+1].Fresh(parent)); err != nil {
+			e.stats.storeFail.Add(1)
+			e.r.Infra("harness B: store canonical block %d: %v", e.height+1, err)
+		}
+		e.height++
+	case "revert":
+		if e.height <= 1 {
+			return
+		}
+		if err := bc.RevertHead(); err != nil {
+			e.r.Infra("harness B: revert head: %v", err)
+		}
+		e.height--
+	}
+	e.bc.entries = e.mainCh[:e.height+1]
+	e.seen[uint64(e.height)] = true
+}
+
+// observe = all readers at this position.
+func (e *benv) observe(step string) {
+	// every view ever handed out is unchanged
+	for i := range e.held {
+		e.stats.rehashes.Add(1)
+		if viewDigest(&e.held[i].view, pass{}) != e.held[i].dig {
+			e.r.Violate("poller: held-view-changed-after-later-step", map[string]any{"scenario": strings.Join(e.trace, " ; "), "step": step,
+				"view_now": describe(&e.held[i].view), "taken_after_steps": e.held[i].at})
+			e.held[i].dig = viewDigest(&e.held[i].view, pass{})
+		}
+	}
+	p := pass{}
+	for h := range e.seen {
+		q := h + 1
+		v := e.storage.SnapshotForBlock(q)
+		e.stats.views.Add(1)
+		entries, ok := e.chk.structural(&v, q, e.ctx())
+		if v.Length() == 0 || !ok {
+			continue
+		}
+		e.stats.nonEmpty.Add(1)
+		e.held = append(e.held, root{view: v, dig: viewDigest(&v, p), at: len(e.trace)})
+		e.chk.functional(&v, entries, p, e.ctx())
+	}
+	// state through every held view against the LIVE canonical chain, at this time
+	for i := range e.held {
+		v := &e.held[i].view
+		var entries []*pending.PreConfirmed
+		for x := range v.OldestFirst() {
+			entries = append(entries, x)
+		}
+		e.chk.liveOverlay(v, entries, e.bc, e.nb, e.ctx())
+	}
+}
+
+// liveOverlay: state at every block of the view under ONE canonical chain (the scenario's live one).
+func (c *checker) liveOverlay(v *preconfirmed.ChainReader, entries []*pending.PreConfirmed, cn *canon, nb int, ctx func() any) {
+	viol := func(key string, d map[string]any) {
+		d["view"] = describe(v)
+		d["case"] = ctx()
+		c.r.Violate("poller: "+key, d)
+	}
+	base := entries[0].Block.Number - 1
+	var m *chain.State
+	if cn.height() >= base {
+		m = cn.entries[base].State.Clone()
+	}
+	probeAddrs := []felt.Felt{chain.AddrA, chain.AddrB, chain.Sys2}
+	_, s1, _, _ := chain.Sierra(1)
+	probeClasses := []felt.Felt{s1}
+	for _, e := range entries {
+		if i := idIndex(e.BlockIdentifier); i >= 0 {
+			probeAddrs = append(probeAddrs, addrD(e.Block.Number, i))
+			_, h, _ := classOf(e.Block.Number, i)
+			probeClasses = append(probeClasses, h)
+		}
+	}
+	tag := []string{"legacy", "newstate"}[nb]
+	vis := map[felt.Felt]core.ClassDefinition{}
+	for _, e := range entries {
+		sq := core.EmptyStateDiff()
+		for _, tx := range e.Block.Transactions {
+			s, i, k, ok := parseTx(tx.Hash())
+			if !ok {
+				return // reported by functional
+			}
+			mergeRef(&sq, txEffect(s, i, k))
+		}
+		var mm *chain.State
+		if m != nil {
+			if err := m.Apply(e.Block.Number, pcVersion, &sq, nil); err != nil {
+				c.r.Infra("harness B alphabet not protocol-valid: %v", err)
+			}
+			mm = m
+		}
+		for h, cd := range e.NewClasses {
+			vis[h] = cd
+		}
+		sr, closer, err := v.PreConfirmedStateAt(e.Block.Number, cn.bc[nb])
+		c.probe(viol, "state-at", tag, cn, e.Block.Number, -1, sr, err, mm, vis, probeAddrs, probeClasses)
+		if closer != nil {
+			_ = closer()
+		}
+	}
+}
+
+func (e *benv) seqMove(m string) {
+	cur := e.seq.blocks[e.seq.latest]
+	switch m {
+	case "addtx":
+		if cur.cnt < 4 {
+			cur.cnt++
+			e.seq.blocks[e.seq.latest] = cur
+		}
+	case "newround":
+		e.seq.blocks[e.seq.latest] = round{(cur.id + 1) % 2, 1}
+	case "nextblock":
+		// the block left behind gets its final content (one more tx), the new one starts with one tx
+		if cur.cnt < 4 {
+			cur.cnt++
+			e.seq.blocks[e.seq.latest] = cur
+		}
+		e.seq.latest++
+		e.seq.blocks[e.seq.latest] = round{0, 1}
+	case "jump2":
+		e.seq.blocks[e.seq.latest+1] = round{1, 2}
+		e.seq.latest += 2
+		e.seq.blocks[e.seq.latest] = round{0, 2}
+	}
+}
+
+// runScenario executes one environment sequence against a fresh node + poller in its own bubble.
+func runScenario(t *testing.T, r *ev.Run, chk *checker, mainCh []*chain.Entry, classes map[felt.Felt]core.ClassDefinition, steps []string, nb int, stats *bStats) {
+	synctest.Test(t, func(t *testing.T) {
+		d := memory.New()
+		bc := chain.NewNode(d, nb == 1)
+		e := &benv{r: r, chk: chk, mainCh: mainCh, height: -1, nb: nb, seen: map[uint64]bool{}, classes: classes, stats: stats,
+			seq: seqModel{latest: 3, blocks: map[uint64]round{3: {0, 1}}}}
+		e.bc = &canon{name: "live"}
+		e.bc.bc[nb] = bc
+		for i := 0; i < 3; i++ {
+			e.headMove("store")
+		}
+		e.storage = preconfirmed.NewChainStorage()
+		out := feed.New[*pending.PreConfirmed]()
+		highest := &atomic.Pointer[core.Header]{}
+		highest.Store(&core.Header{Number: 0})
+		p := preconfirmed.NewPoller(e, e.storage, bc, out, highest, time.Second, log.NewNopZapLogger())
+		ctx, cancel := context.WithCancel(context.Background())
+		done := make(chan struct{})
+		go func() { p.Run(ctx); close(done) }()
+		synctest.Wait()
+		tick := func() {
+			stats.ticks.Add(1)
+			time.Sleep(time.Second)
+			synctest.Wait()
+		}
+		// bootstrap tick so that every scenario starts with a non-empty pre-confirmed chain
+		e.trace = append(e.trace, "tick")
+		tick()
+		e.observe("tick")
+		for _, s := range steps {
+			stats.steps.Add(1)
+			e.trace = append(e.trace, s)
+			switch s {
+			case "tick":
+				tick()
+			case "tick+store":
+				e.mid = "store"
+				tick()
+				e.mid = ""
+			case "tick+revert":
+				e.mid = "revert"
+				tick()
+				e.mid = ""
+			case "store", "revert":
+				e.headMove(s)
+			default:
+				e.seqMove(s)
+			}
+			e.observe(s)
+		}
+		cancel()
+		<-done
+		stats.scenarios.Add(1)
+	})
+}
+
+func pollerHarness(t *testing.T, r *ev.Run, canons []*canon) {
+	maxLen := ev.Pick(r, 3, 5)
+	mainCh := buildMain()
+	classes := map[felt.Felt]core.ClassDefinition{}
+	for s := uint64(0); s < 24; s++ {
+		for i := 0; i < 3; i++ {
+			c, h, _ := classOf(s, i)
+			classes[h] = c
+		}
+	}
+	chk := &checker{r: r, canons: canons, tallest: canons[4]}
+	var scen [][]string
+	var gen func(prefix []string)
+	gen = func(prefix []string) {
+		scen = append(scen, append([]string{}, prefix...))
+		if len(prefix) == maxLen {
+			return
+		}
+		for _, a := range bAlphabet {
+			gen(append(prefix, a))
+		}
+	}
+	gen(nil)
+	stats := &bStats{}
+	var skipped atomic.Int64
+	ev.Par(len(scen), runtime.NumCPU(), func(i int) {
+		// only maximal sequences and those ending in a tick need their own run: every proper prefix is executed (and
+		// observed after each step) as part of its extensions
+		if len(scen[i]) < maxLen {
+			return
+		}
+		if r.OutOfTime() {
+			skipped.Add(1)
+			return
+		}
+		runScenario(t, r, chk, mainCh, classes, scen[i], i%2, stats)
+	})
+	if n := skipped.Load(); n > 0 {
+		r.Incomplete(fmt.Sprintf("harness B: %d of the length-%d scenarios not run (time budget)", n, maxLen))
+	}
+	r.Set("B_scenario_length", int64(maxLen))
+	r.Set("B_scenarios", stats.scenarios.Load())
+	r.Set("B_steps", stats.steps.Load())
+	r.Set("B_poller_ticks", stats.ticks.Load())
+	r.Set("B_datasource_calls", stats.dsCalls.Load())
+	r.Set("B_mid_tick_head_moves", stats.midMoves.Load())
+	r.Set("B_snapshots", stats.views.Load())
+	r.Set("B_nonempty_views", stats.nonEmpty.Load())
+	r.Set("B_held_view_rehashes", stats.rehashes.Load())
+	r.Set("B_view_contents_evaluated", chk.evalReal.Load())
+	r.Set("B_state_reads", chk.stateReads.Load())
+	r.Sample(map[string]any{"harness": "B", "alphabet": bAlphabet, "length": maxLen, "scenarios": stats.scenarios.Load(),
+		"note": "each scenario = bootstrap tick + the sequence; the real Poller.Run goroutine is stepped by fake time inside a synctest bubble"})
+}
